@@ -117,7 +117,7 @@ func TestC04(t *testing.T) {
 	defer rec.Flush(t)
 	o := faultHistOpt()
 	kinds := append(append([]string{}, masterFaults...), clientFaults...)
-	kinds = append(kinds, "err_handshake", "err_query") // attempts that fail before the dump starts must leave the position alone
+	kinds = append(kinds, "err_handshake", "err_query", "dump_write_fails") // attempts that fail before the dump starts must leave the position alone
 	// thorough tier: ENUMERATE one failing attempt = (kind x every fault point x pacing) on fixed history shapes
 	if thorough() {
 		idx, n, stop := 0, 0, false
@@ -153,7 +153,7 @@ func TestC04(t *testing.T) {
 					for i := 1; i <= 3*nsteps+4; i++ {
 						points = append(points, i)
 					}
-				case k == "err_handshake" || k == "err_query":
+				case k == "err_handshake" || k == "err_query" || k == "dump_write_fails":
 					points = []int{0}
 				default:
 					points = []int{1}
